@@ -29,7 +29,7 @@ ASSUMPTIONS = ["statistical assertions use 6-sigma bounds with library seeds dra
 # =============================================================================================
 @st.composite
 def bn_histories(draw):
-    rank = draw(st.sampled_from([2, 3, 4]))
+    rank = draw(st.sampled_from([2, 3, 4, 4, 5]))
     C = draw(st.integers(1, 3))
     opts = {"C": C, "rank": rank, "momentum": draw(st.sampled_from([0.1, 0.5, 1.0, None, 0.01])),
             "affine": draw(st.booleans()), "track": draw(st.sampled_from([True, True, False])),
@@ -39,8 +39,8 @@ def bn_histories(draw):
         opts["gamma"] = [draw(st.integers(2, 16)) / 8.0 * draw(st.sampled_from([1, -1])) for _ in range(C)]
         opts["beta"] = [draw(st.integers(-8, 8)) / 8.0 for _ in range(C)]
     steps = []
-    for _ in range(draw(st.integers(2, 12))):
-        k = draw(st.sampled_from(["train", "eval", "forward", "forward", "forward", "forward_backward", "load"]))
+    for _ in range(draw(st.sampled_from([2, 4, 6, 8, 10, 12, 20]))):
+        k = draw(st.sampled_from(["train", "eval", "eval", "forward", "forward", "forward", "forward_backward", "load"]))
         s = {"k": k}
         if k in ("forward", "forward_backward"):
             N = draw(st.integers(2, 5))
@@ -59,7 +59,7 @@ def check_bn(c, rec):
     o = c["opts"]
     dt = np.dtype(o["dtype"])
     C = o["C"]
-    cls = nn.BatchNorm2d if o["rank"] == 4 else nn.BatchNorm1d
+    cls = nn.BatchNorm2d if o["rank"] >= 4 else nn.BatchNorm1d
     if o["defaults"]:
         m = cls(C)
         o = dict(o, momentum=0.1, affine=True, track=True, eps=1e-5, dtype="float32")
@@ -174,7 +174,7 @@ def check_bn(c, rec):
 # =============================================================================================
 @st.composite
 def dropout_histories(draw):
-    p = draw(st.sampled_from([0.0, 0.1, 0.25, 0.5, 0.75, 0.9, 1.0, 0.3]))
+    p = draw(st.sampled_from([0.0, 0.1, 0.25, 0.5, 0.75, 0.9, 1.0, 0.3, 0.37, 0.999, 1e-3]))
     steps = []
     for _ in range(draw(st.integers(1, 8))):
         k = draw(st.sampled_from(["train", "eval", "forward", "forward", "forward_backward", "forward_backward"]))
